@@ -98,7 +98,9 @@ func runC06(c *fw.Ctx) {
 		nops := 60 + r.IntN(341)
 		keyRange := []int{2, 4, 12, 1000}[r.IntN(4)]
 		ops := heapGenOps(r, nops, keyRange, true)
+		opt.sparse = k%4 == 1 // a quarter of the histories: positions are checked every 53rd step only
 		st := run(ops)
+		opt.sparse = false
 		c.Add("histories", 1)
 		c.Add("position_checks", int64(st.posChecks))
 		c.Add("removes_by_reported_position", int64(st.removeByPos))
